@@ -211,7 +211,9 @@ impl ParsedFields<'_, '_> {
     }
 
     fn render_source_as_enum_variant_match_arm(&self) -> Option<TokenStream> {
-        let source = self.source?;
+        // `ParsedFields` indexes the enabled fields only, while `matcher()`
+        // expects positions among all the fields of the variant.
+        let source = self.data.field_indexes[self.source?];
         let pattern = self.data.matcher(&[source], &[quote! { source }]);
         let expr = render_some(quote! { source });
         Some(quote! { #pattern => #expr })
@@ -248,9 +250,11 @@ impl ParsedFields<'_, '_> {
     }
 
     fn render_provide_as_enum_variant_match_arm(&self) -> Option<TokenStream> {
-        let backtrace = self.backtrace?;
+        // `ParsedFields` indexes the enabled fields only, while `matcher()`
+        // expects positions among all the fields of the variant.
+        let backtrace = self.data.field_indexes[self.backtrace?];
 
-        match self.source {
+        match self.source.map(|source| self.data.field_indexes[source]) {
             Some(source) if source == backtrace => {
                 let pattern = self.data.matcher(&[source], &[quote! { source }]);
                 Some(quote! {
@@ -343,7 +347,7 @@ fn parse_fields<'input, 'state>(
         add_bound_if_type_parameter_used_in_type(
             &mut parsed_fields.bounds,
             type_params,
-            &state.fields[source].ty,
+            &parsed_fields.data.fields[source].ty,
         );
     }
 
